@@ -39,17 +39,25 @@ pub fn innocent_io_probe() -> String {
     if let Some(c) = crate::ctrl::global() {
         c.ext_pending(1);
     }
+    // the probe counts as pending until the read has returned - or, if it never does (the defect this probe is for),
+    // until 300 ms after the write: a machine under load must not turn a slow wake-up into a "logical deadlock"
+    let done = Arc::new(std::sync::atomic::AtomicBool::new(false));
+    let done2 = done.clone();
     let w = std::thread::spawn(move || {
         std::thread::sleep(Duration::from_millis(2));
         let mut b = b;
         let _ = b.write_all(&[42]);
-        std::thread::sleep(Duration::from_millis(2));
+        let t0 = std::time::Instant::now();
+        while !done2.load(SeqCst) && t0.elapsed() < Duration::from_millis(300) {
+            std::thread::sleep(Duration::from_millis(1));
+        }
         if let Some(c) = crate::ctrl::global() {
             c.ext_pending(-1);
         }
     });
     let mut buf = [0u8; 4];
     let r = a.read(&mut buf);
+    done.store(true, SeqCst);
     let _ = w.join();
     match r {
         Ok(1) if buf[0] == 42 => "Ok".to_string(),
